@@ -19,6 +19,9 @@ import (
 type blobCase struct {
 	Blob []byte `json:"blob"`
 	Mode int    `json:"mode"` // compress mode of the deserializing Serializer (irrelevant to the format, varied anyway)
+	// Orig (optional): the valid blob the mutant was made from. The mutant is then also deserialized into the
+	// destination (and with the Serializer) that has just deserialized Orig, the way a caller recycles its objects.
+	Orig []byte `json:"orig,omitempty"`
 }
 
 const sectionLimit = 4 << 20 // the property's "small enough to allocate"
@@ -320,6 +323,31 @@ func c19Check(c blobCase) error {
 			return fmt.Errorf("%v\nblob: %x", perr, clipB(c.Blob))
 		}
 	}
+	if len(c.Orig) > 0 {
+		if ok, _ := c19Precondition(c.Orig); ok {
+			s2 := simdjson.NewSerializer()
+			s2.CompressMode(simdjson.CompressMode((c.Mode + 1) % 4))
+			var dst, res *simdjson.ParsedJson
+			var derr error
+			perr = noPanic("Deserialize of the original blob", func() { dst, derr = s2.Deserialize(append([]byte(nil), c.Orig...), nil) })
+			if perr != nil {
+				return fmt.Errorf("%v\nblob: %x", perr, clipB(c.Orig))
+			}
+			if derr == nil && dst != nil {
+				perr = noPanic("Deserialize into the destination that holds the original document", func() {
+					res, derr = s2.Deserialize(append([]byte(nil), c.Blob...), dst)
+				})
+				if perr != nil {
+					return fmt.Errorf("%v\noriginal blob: %x\nblob (%d bytes): %x", perr, clipB(c.Orig), len(c.Blob), clipB(c.Blob))
+				}
+				if derr == nil && res != nil {
+					if eerr := exercise(res, exerciseOpts{allowInterface: true, maxNodes: 200}); eerr != nil {
+						return fmt.Errorf("traversal of the result deserialized into a recycled destination failed: %v\noriginal blob: %x\nblob (%d bytes): %x", eerr, clipB(c.Orig), len(c.Blob), clipB(c.Blob))
+					}
+				}
+			}
+		}
+	}
 	return waitGoroutines(base)
 }
 
@@ -594,13 +622,16 @@ func TestC19_Mutants(t *testing.T) {
 		blob, _ := genBlob(t)
 		mut, kind := mutateBlob(t, blob)
 		c := blobCase{Blob: mut, Mode: rapid.IntRange(0, 3).Draw(t, "dmode")}
+		if rapid.IntRange(0, 2).Draw(t, "recycle") == 0 {
+			c.Orig = blob
+		}
 		cl := col("C19")
 		if ok, why := c19Precondition(mut); !ok {
 			cl.Skip(why)
 			return
 		}
 		c19Run(t, c)
-		cl.Eval(reachesRebuild(mut), evidHash(mut), "mut:"+kind)
+		cl.Eval(reachesRebuild(mut), evidHash(mut), "mut:"+kind, boolClass("into-recycled-destination", len(c.Orig) > 0))
 		cl.Sample(func() interface{} {
 			return map[string]interface{}{"blob_hex": fmt.Sprintf("%x", clipB(mut)), "len": len(mut), "mutation": kind}
 		})
@@ -643,6 +674,9 @@ func TestC19_Truncations(t *testing.T) {
 						continue
 					}
 					c := blobCase{Blob: cp, Mode: mode}
+					if idx%3 == 0 {
+						c.Orig = blob
+					}
 					c19Run(t, c)
 					col("C19").Eval(reachesRebuild(cp), evidHash(cp), "mut:every-byte-substitution")
 				}
